@@ -151,6 +151,28 @@ def transfer(kind, sz, value, sub, latency, junk, res, desc, sz_in=None,
                 except asyncio.TimeoutError:
                     res.count("preludes_with_an_abandoned_upload")
                 t.mbx_resp_latency = lambda: next(lat, 0)
+            elif step == "unfetched":
+                # a transfer given up after its request was written and
+                # before the (slow) terminal fetched it from the mailbox:
+                # the next transfer finds the send mailbox still full
+                t.mbx_fetch_latency = lambda: desc.get("fetch_after", 12)
+                n0 = len(t.mbx_writes)
+                t0 = asyncio.ensure_future(term.sdo_read(0x7fff, 1))
+                for _ in range(4000):
+                    # (virtual time only moves when nothing is ready)
+                    await asyncio.sleep(1e-5)
+                    if len(t.mbx_writes) > n0:
+                        break
+                for _ in range(desc.get("cancel_after", 0)):
+                    await asyncio.sleep(1e-5)
+                if t.mbx_out_full and not t0.done():
+                    res.count("preludes_with_an_unfetched_request")
+                t0.cancel()
+                try:
+                    await t0
+                except (asyncio.CancelledError, EtherCatError):
+                    pass
+                t.mbx_fetch_latency = lambda: 0
             elif step == "contended":
                 # another process holds the terminal's record lock (lockf
                 # answers EAGAIN, which is all this process sees of it); the
@@ -190,6 +212,7 @@ def transfer(kind, sz, value, sub, latency, junk, res, desc, sz_in=None,
                     res.count("preludes_with_an_aborted_transfer")
         if junk and desc.get("prelude"):
             t.mbx_handler = handle
+        marks.append(len(t.events))
         try:
             if kind == "write":
                 r = await asyncio.wait_for(
@@ -202,6 +225,7 @@ def transfer(kind, sz, value, sub, latency, junk, res, desc, sz_in=None,
         except Exception as ex:
             return ("raised", f"{type(ex).__name__}: {str(ex)[:120]}")
     lockdir = tempfile.mkdtemp(prefix="vf-c16-")
+    marks = []
     try:
         out = aio.run(main, max_iterations=30000)
     except aio.Idle as ex:
@@ -222,6 +246,18 @@ def transfer(kind, sz, value, sub, latency, junk, res, desc, sz_in=None,
     problems = []
     toolong = [len(m) for m in srv.errors if "exceeds mailbox" in m]
     stale = desc.get("prelude") == "timeout"
+    if "unfetched" in (desc.get("prelude") or "") and marks:
+        # the abandoned request is answered after all: the transfer under
+        # test may fail once the master has read that stale response after
+        # handing over its own request (as for "timeout"), not otherwise
+        own = False
+        for e in t.events[marks[0]:]:
+            if e[0] == "mbx_write":
+                own = True
+            elif e[0] == "mbx_read" and own and len(e[1]) >= 12 and \
+                    e[1][5] & 0xf == 3 and \
+                    struct.unpack_from("<H", e[1], 9)[0] == 0x7fff:
+                stale = True
     if out[0] != "ok" and stale:
         # the stale response of the abandoned upload may make this transfer
         # fail (the statement promises no success here), but never succeed
@@ -409,7 +445,12 @@ def run_shard(params):
                                                 "ok+fail", "timeout"]),
                             parallel_lock=rng.random() < 0.4,
                             value=value.hex()[:64])
-                if rng.random() < 0.12:
+                if rng.random() < 0.1:
+                    desc.update(prelude=rng.choice(["unfetched",
+                                                    "ok+unfetched"]),
+                                fetch_after=rng.randint(6, 40),
+                                cancel_after=rng.randint(0, 3))
+                elif rng.random() < 0.12:
                     desc.update(prelude=rng.choice(["contended",
                                                     "ok+contended"]),
                                 parallel_lock=True,
